@@ -32,8 +32,8 @@ Theorem C03_diff_exit_code : forall Hb matches C cdig t ipats ifile r,
 Proof. exact diff_exit_selection. Qed.
 Print Assumptions C03_diff_exit_code.
 
-Theorem C03_create_exit_code : forall Hb matches C cdig ser t req no_dh ip ifl hs, load C cdig t = inl hs ->
-  let o := snd (create_folder Hb matches C cdig ser t req no_dh ip ifl) in
+Theorem C03_create_exit_code : forall Hb matches C cdig ser t req no_dh dr ip ifl hs, load C cdig t = inl hs ->
+  let o := snd (create_folder Hb matches C cdig ser t req no_dh dr ip ifl) in
   (o_outcome o = Abort \/ o_outcome o = Exit 11 \/ o_outcome o = Exit 10 \/ o_outcome o = Exit 30 \/ o_outcome o = Exit 0) /\
   (o_outcome o = Exit 0 -> o_missing o = []) /\
   (o_outcome o = Exit 30 -> o_missing o = []) /\
